@@ -68,6 +68,24 @@ def c15(run):
     judge(run, conc, "TestSyncer", "SyncerTrace", ["C15_"], shards=4, pkg="synch")
 
 
+def deep_tail_rows(quick):
+    """hand-built rows (outside SyncerTail.cfg's bounds, same prediction rule: the tail becomes SyncFromHeight): the
+    starting point is moved down by several headers, and the getter serves the difference in full or in partial answers of
+    1 or 2 headers, so that filling it needs several range requests"""
+    pats = {"regular1": list(range(1, 11)), "slow3": [3 * k for k in range(1, 11)], "burst": [3, 6, 9, 12, 13, 14, 15, 16, 17, 18]}
+    rows = []
+    for pat, times in pats.items():
+        for tail in ((6,) if quick else (5, 6, 7)):
+            for sfh in ((1, 3) if quick else (1, 2, 3)):
+                for shead in ((tail + 1, 9) if not quick else (9,)):
+                    for partial in (0, 1, 2):
+                        rows.append({"k": "C16", "in": {"bt": -1, "w": 0, "tp": 3, "sfh": sfh, "pat": pat, "tail": tail, "shead": shead, "nhead": 10,
+                                                        "partial": partial},
+                                     "predicted": {"tail": sfh, "kind": "ok"}, "alt": {"kind": "ok", "tail": sfh}, "allowed": True, "kf": False,
+                                     "spaced": False, "times": times, "from_tlc": False})
+    return rows
+
+
 @register("C16")
 def c16(run):
     quick = run.tier == "quick"
@@ -96,7 +114,9 @@ def c16(run):
             c2["in"]["byHash"] = True
             extra.append(c2)
             nhash += 1
-    cases = cases + extra
+    deep = deep_tail_rows(quick)
+    cases = cases + extra + deep
+    run.cov["deep_move_down_rows"] = len(deep)
     run.cov["tpSmall_variants"] = len(extra) - nhash
     run.cov["byHash_variants"] = nhash
     for i, c in enumerate(cases):
@@ -393,6 +413,13 @@ def c07(run):
 def c03(run):
     syncer_family(run, ["C03_"])
     sync_explore(run, ["C03_"], 1600 if run.tier == "quick" else 80000)
+    # the other way the Syncer writes to the Store: the starting point is moved down and the difference below the old tail is
+    # fetched in several (partial) range answers — the Store must end as one gap-free run again
+    deep = deep_tail_rows(run.tier == "quick")
+    for i, c in enumerate(deep):
+        c["id"] = i
+    run.cov["tail_move_down_rows"] = len(deep)
+    judge(run, deep, "TestTail", "SyncerTailTrace", ["C03_"], shards=4, pkg="synch")
 
 
 def apalache_tail(run):
